@@ -57,7 +57,19 @@ class TypeAliasUnwrappingProvider(LocatedRequestDelegatingProvider):
         if not isinstance(norm, NormTypeAlias):
             raise CannotProvide
 
-        return norm.value[tuple(arg.source for arg in norm.args)] if norm.args else norm.value
+        if not norm.args:
+            return norm.value
+        return self._substitute(norm.value, norm.origin.__type_params__, tuple(arg.source for arg in norm.args))
+
+    def _substitute(self, value: TypeHint, params: Sequence[Any], args: Sequence[TypeHint]) -> TypeHint:
+        value_params = getattr(value, "__parameters__", ())
+        if len(params) != len(args) or not all(isinstance(param, TypeVar) for param in params):
+            return value[tuple(args)]
+        if not value_params:
+            return value
+        # value is parametrized by order of first appearance, not by order of alias declaration
+        param_to_arg = dict(zip(params, args))
+        return value[tuple(param_to_arg[param] for param in value_params)]
 
 
 class ForwardRefEvaluatingProvider(LocatedRequestDelegatingProvider):
